@@ -9,7 +9,7 @@ PID = "C08"
 
 def gen(rng, tier):
     lines, cases = [], []
-    n = 60 if tier == "quick" else 500
+    n = 60 if tier == "quick" else 4000
     for i in range(n):
         # three datasets sharing some columns; the third may lack a group-by column
         base = "c%d" % i
